@@ -189,7 +189,7 @@ class Capacity(object):
         m["L_last"] = (ev(self.last_test[0], self.build) + self.last_test[1]) if self.build_shape else None        # last fragment: len < L_last
         m["LIMIT"] = (ev(self.limit_test[0], self.build) + self.limit_test[1]) if self.limit_test is not None else None   # largest accepted payload
         widths = set()
-        for s in self.slice_exprs:
+        for s in (self.slice_exprs if self.build_shape else []):
             b = s.slice.upper if s.slice.upper is not None else s.slice.lower
             if b is not None:
                 widths.add(ev(b, self.build))
@@ -235,8 +235,8 @@ class SplitModel(object):
         body = [st for st in fi.node.body if not (isinstance(st, ast.Expr) and isinstance(st.value, ast.Constant))]
         self.stmts = []
         for st in body:
-            if isinstance(st, ast.For):
-                break
+            if isinstance(st, ast.For) and "self.fragments" in norm(st.iter):
+                break               # the emit loop over the finished fragment list
             self.stmts.append(st)
         self._consts = {}
 
@@ -259,8 +259,8 @@ class SplitModel(object):
         if isinstance(e, ast.Call) and norm(e.func) in ("bytes",) and not e.args:
             return (e0, e0)
         if isinstance(e, ast.Subscript) and isinstance(e.value, ast.Name) and e.value.id == self.p and isinstance(e.slice, ast.Slice) and e.slice.step is None:
-            lo = self.const(e.slice.lower, ov) if e.slice.lower is not None else 0
-            hi = self.const(e.slice.upper, ov) if e.slice.upper is not None else None
+            lo = self.ival(e.slice.lower, st, ov) if e.slice.lower is not None else 0
+            hi = self.ival(e.slice.upper, st, ov) if e.slice.upper is not None else None
             if lo < 0 or (hi is not None and hi < 0):
                 raise Undecided("split model: negative slice bound in %s" % norm(e))
             l = e0 - s0
@@ -275,6 +275,48 @@ class SplitModel(object):
         a, b_ = self.span(e, st, ov)
         return b_ - a
 
+    def ival(self, e, st, ov):
+        """integer value of an expression over constants, integer locals, len(<payload slice>) and len(self.fragments)"""
+        ints = st.setdefault("ints", {})
+        if isinstance(e, ast.Name) and e.id in ints:
+            return ints[e.id]
+        if isinstance(e, ast.Call) and norm(e.func) == "len" and len(e.args) == 1:
+            if norm(e.args[0]) == "self.fragments":
+                return len(st["frags"])
+            return self.length(e.args[0], st, ov)
+        if isinstance(e, ast.Call) and norm(e.func) in ("min", "max") and e.args and not e.keywords:
+            vals = [self.ival(a, st, ov) for a in e.args]
+            return min(vals) if norm(e.func) == "min" else max(vals)
+        if isinstance(e, ast.BinOp) and any(isinstance(x, ast.Name) and x.id in ints or (isinstance(x, ast.Call) and norm(x.func) == "len") for x in ast.walk(e)):
+            a, b = self.ival(e.left, st, ov), self.ival(e.right, st, ov)
+            if isinstance(e.op, ast.Add):
+                return a + b
+            if isinstance(e.op, ast.Sub):
+                return a - b
+            if isinstance(e.op, ast.Mult):
+                return a * b
+            if isinstance(e.op, ast.FloorDiv) and b != 0:
+                return a // b
+            if isinstance(e.op, ast.Mod) and b != 0:
+                return a % b
+            raise Undecided("split model: operator in %s" % norm(e))
+        if isinstance(e, ast.UnaryOp) and isinstance(e.op, ast.USub):
+            return -self.ival(e.operand, st, ov)
+        return self.const(e, ov)
+
+    def _is_int_expr(self, e, st):
+        """an expression that is an integer by construction (no bytes value involved)"""
+        ints = st.get("ints", {})
+        for x in ast.walk(e):
+            if isinstance(x, ast.Name) and x.id == self.p and not (isinstance(getattr(x, "_parent", None), ast.Call) and norm(x._parent.func) == "len") \
+                    and not isinstance(getattr(x, "_parent", None), ast.Subscript):
+                return False
+            if isinstance(x, ast.Subscript) and not (isinstance(getattr(x, "_parent", None), ast.Call) and norm(x._parent.func) == "len"):
+                return False
+            if isinstance(x, ast.Constant) and isinstance(x.value, (bytes, str)):
+                return False
+        return True
+
     def test(self, t, st, ov):
         if isinstance(t, ast.UnaryOp) and isinstance(t.op, ast.Not):
             return not self.test(t.operand, st, ov)
@@ -287,11 +329,7 @@ class SplitModel(object):
             return st["rng"][1] > st["rng"][0]
         if isinstance(t, ast.Compare) and len(t.ops) == 1:
             def val(x):
-                if isinstance(x, ast.Call) and norm(x.func) == "len" and len(x.args) == 1:
-                    if norm(x.args[0]) == "self.fragments":
-                        return len(st["frags"])
-                    return self.length(x.args[0], st, ov)
-                return self.const(x, ov)
+                return self.ival(x, st, ov)
             a, b = val(t.left), val(t.comparators[0])
             import operator
             ops = {ast.Lt: operator.lt, ast.LtE: operator.le, ast.Gt: operator.gt, ast.GtE: operator.ge, ast.Eq: operator.eq, ast.NotEq: operator.ne}
@@ -320,6 +358,26 @@ class SplitModel(object):
                     st["steps"] += 1
                     if st["steps"] > self.MAX_STEPS:
                         return ("nonterminating",)
+            elif isinstance(s, ast.For) and isinstance(s.target, ast.Name) and isinstance(s.iter, ast.Call) and norm(s.iter.func) == "range" \
+                    and 1 <= len(s.iter.args) <= 3 and not s.orelse:
+                args = [self.ival(a, st, ov) for a in s.iter.args]
+                if len(args) == 3 and args[2] == 0:
+                    return ("raise", "ValueError")
+                for v in range(*args):
+                    st.setdefault("ints", {})[s.target.id] = v
+                    r = self.run(s.body, st, ov)
+                    if r is not None:
+                        if r == ("break",):
+                            break
+                        if r == ("continue",):
+                            continue
+                        return r
+                    st["steps"] += 1
+                    if st["steps"] > self.MAX_STEPS:
+                        return ("nonterminating",)
+            elif isinstance(s, ast.AugAssign) and isinstance(s.target, ast.Name) and s.target.id in st.get("ints", {}) and isinstance(s.op, (ast.Add, ast.Sub)):
+                d = self.ival(s.value, st, ov)
+                st["ints"][s.target.id] += d if isinstance(s.op, ast.Add) else -d
             elif isinstance(s, ast.Raise):
                 return ("raise", norm(s.exc.func) if isinstance(s.exc, ast.Call) else norm(s.exc))
             elif isinstance(s, ast.Break):
@@ -338,6 +396,8 @@ class SplitModel(object):
                     st["frags"] = []
                 elif t.startswith("self.") and t not in ("self.fragments",):
                     pass          # bookkeeping lists (acks, payloads, msgseqs) do not influence the split
+                elif isinstance(s.targets[0], ast.Name) and self._is_int_expr(s.value, st):
+                    st.setdefault("ints", {})[t] = self.ival(s.value, st, ov)
                 else:
                     raise Undecided("split model: assignment %s is not modelled" % norm(s)[:60])
             elif isinstance(s, ast.Expr) and isinstance(s.value, ast.Call) and norm(s.value.func) == "self.fragments.append" and len(s.value.args) == 1:
